@@ -491,6 +491,8 @@ def _reversed(E, path, fv, args, kwargs, frame):
 
 
 def _iter(E, path, fv, args, kwargs, frame):
+    if isinstance(args[0], ExtVal) or (isinstance(args[0], Sym) and E.tag_of(path, args[0]) == "ExtV"):
+        return ExtVal("builtins.iter", [args[0]])
     items = E.iter_concrete(path, args[0])
     if items is None:
         if isinstance(args[0], (ExtVal,)):
